@@ -329,6 +329,8 @@ func main() {
 		{"W10-timed-unlock-rearmed-while-pending", [][]step{{unlock(pwRight, 3), sleep(1), unlock(pwRight, 1)}, {sleep(5), obsStatus(), obsSign(e)}}, false},
 		{"W11-locked-wallet-ticket-relocked", [][]step{{ticketRelock()}, {obsDump(), obsSeed(pwRight)}, {obsSign(e)}}, true},
 		{"W12-lock-request-while-ticket-open", [][]step{{lock(), ticketRelock()}, {obsDump(), obsStatus()}, {obsSign(e)}}, true},
+		{"W13-failed-unlock-during-timed-unlock", [][]step{{unlock(pwRight, 2), sleep(1), unlock(pwWrong, 0), sleep(3)}, {sleep(4), obsStatus(), obsDump()}, {sleep(4), obsSeed(pwRight)}}, false},
+		{"W14-failed-timed-unlock-during-timed-unlock", [][]step{{unlock(pwRight, 2), sleep(1), unlock(pwWrong, 5), sleep(3)}, {sleep(4), obsStatus(), obsSign(e)}}, false},
 		{"W8-timeout-vs-setpw", [][]step{{unlock(pwRight, 1), sleep(2), setpw(pwWrong, pwNew)}, {sleep(2), obsStatus(), obsSign(e)}}, false},
 	}
 	bound := r.Pick(5, 9)
